@@ -53,18 +53,15 @@ Definition C12_returns_subscription : Prop :=
   Returns Sb.step sb_reach (fun s => is_close (Sb.sdst s)) Sb.terminating Sb.done.
 Definition C12_returns_multiplexed : Prop :=
   Returns Mx.step mx_reach (fun s => is_close (Mx.sdst s)) Mx.terminating Mx.done.
-Definition C12_returns_file_full : Prop :=
+Definition C12_returns_file : Prop :=
   Returns Fs.step fs_reach (fun s => is_close (Fs.sdst s)) Fs.terminating Fs.done.
 
-(* what is proved for the file source: closing; and, with the Shutdown complete, run() is enabled at
-   every blocking point that has a Terminating arm, the only other one being the receive on the `blocks`
-   channel of the current file, whose goroutine (once running) is enabled.
-   GAP w.r.t. C12_returns_file_full: the invariant "a file sent on fileStream has its goroutine spawned
-   by launchReader's next step" and the ranking over the unbounded list of file goroutines. *)
+(* supporting statement for the file source (which blocking point has which escape): with the Shutdown
+   complete, run() is enabled at every blocking point that has a Terminating arm; the only other one is the
+   receive on the `blocks` channel of the current file, whose goroutine (once running) is enabled *)
 Definition fs_waits_for_file (s : Fs.state) (k : nat) : Prop :=
   Fs.pcr s = Fs.RRange k /\ exists f, nth_error (Fs.files s) k = Some f /\ Fs.f_slot f = None /\ Fs.f_pc f <> Fs.FClosed.
-Definition C12_returns_file_partial : Prop :=
-  (forall s, fs_reach s -> is_close (Fs.sdst s) = true -> exists t, Fs.terminating (Fs.step s t) = true) /\
+Definition C12_file_blocking_points : Prop :=
   (forall s c, fs_reach s -> Fs.terminated s = true -> Fs.returned s = false ->
      Fs.step s (Fs.TRun c) <> s \/ (exists k, Fs.pcr s = Fs.RRange k /\ nth_error (Fs.files s) k = None) \/
      exists k, fs_waits_for_file s k) /\
@@ -73,7 +70,7 @@ Definition C12_returns_file_partial : Prop :=
 
 Definition C12_returns : Prop :=
   C12_returns_eternal /\ C12_returns_joining /\ C12_returns_subscription /\ C12_returns_multiplexed /\
-  C12_returns_file_partial.
+  C12_returns_file.
 
 (* ---- c12_no_call_after *)
 Definition mx_all_returned (s : Mx.state) : Prop :=
